@@ -2,236 +2,241 @@
 ALL = ["C%02d" % i for i in range(1, 21)]
 
 CLAIMED = {
-    "C12": {
-        "text": "Coq theorems over the model of jdays/jdays2000/gmst regenerated from astronomy.py on every run: "
-                "calendar agreement with Fliegel-Van Flandern for every date 1900-2100 (finite sweep lifted), exact Julian date, "
-                "J2000 offset, differences, GMST range, IAU-1982 within 1e-7 rad and sidereal rate within 1e-9 rad/day for |T|<=1; "
-                "plus correspondence of the generated model and of the calendar model against the interpreter",
-        "design_ref": "DESIGN.md 5/C12",
-        "note": "trusted: Coq kernel, stdlib real axioms + Uint63 primitives (Interval), translator (self-checked each run), "
-                "numpy's civil-date-to-tick mapping (validated by Coq-evaluated correspondence); binary64 rounding sampled, not proved",
-        "technique": "Coq proof over source-regenerated real-number model + Interval; correspondence via vm_compute",
-    },
-    "C09": {
-        "text": "Coq theorems (no axioms) over a hand-written executable model of Tle._checksum and the constructor order, for lines of ANY length: "
-                "accepted iff the last character is the digit of (digit sum + number of '-') mod 10 of the rest; any single digit replaced by a "
-                "different digit (check digit included) is rejected; any replacement changing the weight mod 10 is rejected; both lines must pass; "
-                "parsing is reached only through an accepted checksum. The model is tied to tlefile.py by an exhaustive sweep per TLE of all "
-                "2x69 positions x 95 printable replacements, evaluated inside Coq (vm_compute) and on the implementation (lines, files, streams)",
-        "design_ref": "DESIGN.md 5/C09",
-        "note": "trusted: Coq kernel; hand-written model (correspondence-checked every run); domain 7-bit ASCII (Python isdigit/int on non-ASCII digits not modelled)",
-        "technique": "Coq proof by induction over an executable Gallina model; exhaustive per-TLE correspondence via vm_compute",
+    "C01": {
+        "text": 'Coq theorems tying the model of OrbitElements/_SGDP4Base/_Keplerians/kep2xyz/get_position regenerated from orbital.py on every run (decision trees '
+                'over every path + every named quantity + the finishing map as a function of E+omega, with generated composition lemmas checked by conversion) to a '
+                "hand transcription of Spacetrack Report #3: on BOTH reachable near-earth-normal paths (e0 > 1e-4; e0 <= 1e-4 with the report's small-eccentricity "
+                'convention) every initialisation coefficient, the secular/drag/long-period update, the short-period finishing map, the state vectors and the unit '
+                "conversions equal the report's, every Newton exit satisfies Kepler's equation to 1e-12, Kepler's equation has exactly one solution and the returned "
+                'E+omega is within 1e-12/(1-sqrt eL2) rad of it (MVT/IVT); the two remaining leaves (|1+cos i| < 1.5e-12) are proved unreachable for inclinations with '
+                'four decimals; the ISS set and a small-eccentricity set are proved to be on their paths by interval arithmetic. PARTIAL: Newton convergence within 10 '
+                'iterations, the Lipschitz step from the bound on E+omega to 1 mm on the position, and binary64 rounding are sampled: implementation vs an independent '
+                'evaluation of the report (worst 0.011 mm) and the AIAA vectors',
+        "design_ref": 'DESIGN.md 5/C01',
+        "note": 'trusted: Coq kernel, stdlib real axioms (+ Uint63/float primitives via Interval in the example), translator (self-checked each run on outcome class '
+                'and state), Spec_SGP4.v transcription (cross-checked by the Gen=Spec proofs: a slip in D4 was caught that way). Known finding C01:aiaa:29141 (decaying'
+                ' SL-14 DEB entry of the AIAA set, 0.35 m)',
+        "technique": 'Coq proof over source-regenerated model (symbolic tracing with path enumeration, decision trees, generated conversion lemmas); field/ring; independent'
+                ' STR#3 oracle + AIAA vectors',
     },
     "C02": {
-        "text": "Coq theorems (no axioms) for every well-formed field record of the standard TLE column layout (a printer written from the format "
-                "definition): the model of Tle.__init__/_parse_tle decodes the printed lines to exactly the values the columns denote (strings and "
-                "integers exactly, each float as exact sign/digits/implied point/signed exponent), the epoch is exactly 1 January of the %y-pivoted "
-                "year plus (day-1) days in whole microseconds, line1/line2 are the stripped inputs, printed sets pass the checksum, every decimal "
-                "has mantissa < 2^53 and |power of ten| <= 22",
-        "design_ref": "DESIGN.md 5/C02",
-        "note": "trusted: Coq kernel; hand-written model tied to tlefile.py by the Coq-evaluated correspondence on generated sets (premise wf/encode "
-                "re-checked per input). Validated, not proved: CPython float() correct rounding (bit-exact hex), eccentricity within 1 ulp, the timedelta "
-                "float path reaching the exact microsecond, file/StringIO readers. Years 57-68 follow %y and are not judged",
-        "technique": "Coq proof of decode∘encode = values over an executable Gallina model and a literature printer; correspondence by vm_compute "
-                     "against the implementation (float.hex(), integer microseconds) plus an independent column-table oracle",
-    },
-    "C04": {
-        "text": "Coq theorems over the real-number model of Orbital.get_lonlatalt, geoloc.get_lonlatalt, astronomy.observer_position and utc2local "
-                "regenerated from source on every run (geodetic loop unrolled per exit path): longitude in (-180,180] and latitude in [-90,90] for all "
-                "inputs; on EVERY exit path, from the exit test alone, the WGS-84 + GMST reconstruction of (lon,lat,alt) equals (A/XKMPER) x position "
-                "within A*2e-12 km per component (Lipschitz bounds by MVT), with A/XKMPER-1 < 3.2e-7 inside the property's 2e-6; observer_position is "
-                "exactly the WGS-84 geodetic->ECI map with velocity = earth-rotation x position; method and module function are the same real function; "
-                "local time = UTC + lon/15 h",
-        "design_ref": "DESIGN.md 5/C04",
-        "note": "trusted: Coq kernel, stdlib real axioms (+ classic/funext via Coquelicot, Uint63/float primitives via Interval), translator (self-checked "
-                "each run: binary64 DAG evaluation and Coq-Interval point evaluation against the interpreter). Paths beyond 6 loop iterations are outside "
-                "the model (the correspondence run reports any input needing them). Binary64 rounding, incl. near the polar axis, sampled not proved",
-        "technique": "Coq proof over source-regenerated real-number model (symbolic tracing with path enumeration), Coquelicot MVT + Interval; oracle vs independent WGS-84/IAU-82 code",
-    },
-    "C05": {
-        "text": "Coq theorems over the regenerated real-number model of Orbital.get_observer_look and the module function: both are the core formula "
-                "applied to the observer-position and GMST kernels (by conversion); elevation = asin(up-component/range) in the observer's WGS-84 "
-                "east-north-up frame, the clips being the identity over the reals (Cauchy-Schwarz); elevation in [-90,90] and the asin argument in "
-                "[-1,1] for every input; azimuth is the clockwise-from-north angle in [0,2pi) (module: any direction with a horizontal component; "
-                "method: north component non-zero); a satellite on the observer's geodetic normal is at elevation exactly 90",
-        "design_ref": "DESIGN.md 5/C05",
-        "note": "trusted: Coq kernel, stdlib real axioms, translator (self-checked each run). 1e-4 deg accuracy, finiteness in binary64 and the 5e-3 deg "
-                "method/module agreement are sampled against an independent ENU computation (incl. the exact sub-satellite point, poles, date line, "
-                "antipode, geostationary altitudes). The method's exact-zero north component (division by zero) is not constructed",
-        "technique": "Coq proof over source-regenerated real-number model; atan2/asin library lemmas; oracle vs independent ENU code",
-    },
-    "C20": {
-        "text": "PARTIAL. Coq theorems over the regenerated model of kep2xyz/get_position: |position| = radius, <position,velocity> = radius*rdot, "
-                "|velocity|^2 = rdot^2 + rfdot^2, r x v = radius*rfdot*(sin i sin O, -sin i cos O, cos i) (orbital plane has the model's inclination and "
-                "node), unit conversion of the normalised output. The other clauses (velocity = d position/dt within 0.15 %, perigee/apogee band, "
-                "inclination within 0.05 deg of the TLE, energy within 1 %, orbit summary) are facts about the SGP4 theory and are checked by sampling",
-        "design_ref": "DESIGN.md 5/C20",
-        "note": "trusted: Coq kernel, stdlib real axioms, translator (self-checked each run). Sampled clauses are not proved; say so in evidence.assumptions",
-        "technique": "Coq proof (ring with trigonometric identities) over source-regenerated model; finite-difference and node-scan oracle on the implementation",
-    },
-    "C06": {
-        "text": "Coq theorems over the model of sun_ecliptic_longitude, sun_ra_dec, cos_zen, sun_zenith_angle, get_alt_az and "
-                "sun_earth_distance_correction regenerated from astronomy.py on every run: for every instant 1950-2050 the code's ecliptic longitude, "
-                "obliquity and distance factor are within 0.0275 deg, 0.002 deg and 0.0015 AU of the Astronomical-Almanac low-precision formulas; (ra, dec) "
-                "are exactly the spherical coordinates of the ecliptic point; the sun direction is within a chord of 5.15e-4 (< 0.03 deg) of the Almanac "
-                "direction; cos_zen is the sun-zenith dot product, lies in [-1,1] and is within 5.16e-4 of the Almanac/IAU-82 value; azimuth = "
-                "atan2(east, north); zenith/altitude/arccos mutually consistent (the code's clip is the identity over the reals); zenith 0 / 180 at the "
-                "sub-solar point / antipode",
-        "design_ref": "DESIGN.md 5/C06",
-        "note": "trusted: Coq kernel, stdlib real axioms, FloatAxioms/Uint63 primitives used by Interval, translator (self-checked each run), independent "
-                "numpy Almanac oracle with UT1=UTC. Binary64 rounding and the angle-form 0.03 deg for zenith/altitude/azimuth are sampled, not proved. "
-                "One singular instant per year of the half-angle RA formula is excluded from the direction theorems and proved to exist (unreachable in binary64)",
-        "technique": "Coq proof over source-regenerated real-number model; Interval (Taylor models + bisection) for series bounds; atan2/half-angle library; IVT for the singular instant",
-    },
-    "C15": {
-        "text": "Coq theorems (no axioms) over a hand-written executable model of SQLiteTLE for histories of any length with crashes at every statement "
-                "boundary: row set = first-seen (text, source) per distinct (configured satellite, epoch), nothing for unconfigured satellites; flag iff a row "
-                "was added since open; a crash is indistinguishable from a reopen for every later observation; export = temporally newest first-seen entry "
-                "per platform with data, in configuration order, nothing unless added or write_always; bytewise order of the stored ISO strings = temporal "
-                "order incl. prefix-related whole-second strings. Correspondence of model and implementation after every operation on random, corpus and "
-                "bounded-exhaustive histories plus fetch_tles.run",
-        "design_ref": "DESIGN.md 5/C15",
-        "note": "trusted: Coq kernel, sqlite semantics (unique-key insert, transaction atomicity, BINARY text order), crash = exception at a statement "
-                "boundary through a proxy on db.db, epoch taken from the parsed Tle, insertion_time not modelled; platform_names may permanently lack a row "
-                "after a crash (proved; not required by the property)",
-        "technique": "refinement proof in Coq to a history-level abstract spec + Coq-evaluated (vm_compute) history correspondence with crash injection",
-    },
-    "C17": {
-        "text": "Coq theorems (no axioms) over a hand-written model of fetch_plain_tle / fetch_spacetrack and of the line scanner, for unbounded source and "
-                "URI lists: any result is the per-source in-order concatenation with every configured source present; a non-200 URI is equivalent to its "
-                "deletion; a result implies no timeout and a reached timeout is TleDownloadTimeoutError; text without a line starting '1 ' yields no entries; "
-                "the Space-Track case table. Every outcome assignment over <= 5 URIs in <= 3 sources is run on the implementation under an interposed "
-                "requests layer and on the model inside Coq",
-        "design_ref": "DESIGN.md 5/C17",
-        "note": "trusted: Coq kernel, interposed requests (status_code/text, Timeout subclasses), TLE lines abstracted to 5 classes; known finding "
-                "C17:body-line-starting-with-1-not-tle is modelled faithfully and proved as C17_line1_refuted",
-        "technique": "Coq proof by induction over the fetch loops + exhaustive Coq-evaluated correspondence",
-    },
-    "C14": {
-        "text": "Coq theorems over the model of qrotate (all accepted axis/angle/shape variants, proved column-wise identical) and subpoint, regenerated "
-                "from geoloc.py on every run: equality with Rodrigues' rotation about axis/|axis| by minus the angle for every vector, non-zero axis "
-                "and angle; length and inner-product preservation; axis fixed; identity at 0 and 2pi; additivity; the subpoint lies on the (A, B) "
-                "ellipsoid for every latitude value. Translator self-check and implementation oracle against an independent Rodrigues formula",
-        "design_ref": "DESIGN.md 5/C14",
-        "note": "trusted: Coq kernel, stdlib real axioms, translator (self-checked each run in binary64 and by Coq-Interval). Shape/broadcast semantics, "
-                "the 1 m normal distance, geodetic_lat termination and binary64 rounding at 1e-9 are sampled",
-        "technique": "Coq proof (nsatz / field) over a source-regenerated real-number model + sampling oracle",
-    },
-    "C07": {
-        "text": "Coq theorems over the regenerated model of the compute_pixels core and ScanGeometry.vectors: the pixel lies exactly on WGS-84, on the "
-                "ray at the smaller of the only two roots and in front of the satellite; horizon inequality; an intersection exists iff discriminant >= 0; "
-                "unit view vectors; zero angles give nadir; roll and pitch add; yaw leaves the off-nadir angle unchanged; closed-form across/along-track "
-                "sense; exit of the NaN-tolerant vectorised loop (pre-fix loop refuted). Sub-point conversion range/round trip come from C04's theorems",
-        "design_ref": "DESIGN.md 5/C07",
-        "note": "the NaN <-> miss link, nadir 0.2 deg, the 1e-9 / 10 m tolerances, 2-D shapes and get_lonlatalt termination are validated by the oracle "
-                "(hit/miss decided in exact rationals). Orbital.get_position is taken as the state source. M_VecLoop.v is hand-written from geoloc.py:54-59,197-202",
-        "technique": "Coq proof over a source-regenerated model with recorded qrotate calls + hand-written loop-exit model + implementation oracle",
-    },
-    "C10": {
-        "text": "Coq theorems (no axioms) over a hand-written executable model of the line scanner (explicit cursor, StopIteration, prefix designator, "
-                "SATELLITES as finite map), the bulk readers and read_platform_numbers: for well-formed collections of any length the result is the first "
-                "entry matching by name line or registered 5-character id (empty name on a stream -> first entry), else KeyError; both lines come from one "
-                "entry (adjacent source lines even without well-formedness); bulk reads return every entry in order; the platforms mapping is leading "
-                "words -> last token with the last row winning. Necessity of each hypothesis proved by _refuted witnesses",
-        "design_ref": "DESIGN.md 5/C10",
-        "note": "trusted: Coq kernel, Python line iteration and XML parsing, ASCII domain; model-code tie by generated correspondence (about 1.8k quick, "
-                "12k thorough cases, model evaluated in Coq), sats_ok (5-character ids) discharged by computation for the active platforms file",
-        "technique": "hand-written Gallina model + structural induction; vm_compute correspondence + independent oracle",
-    },
-    "C16": {
-        "text": "Coq theorems (no axioms) by complete case analysis over a hand-written decision model of _read_tle / _get_uris_and_open_func / "
-                "_get_config_path / get_platforms_filepath: precedence lines > file/stream > newest TLES file > network; no network request whenever a local "
-                "source is configured even if it yields nothing; registry from PYORBITAL_CONFIG_PATH iff it holds platforms.txt; PPP_CONFIG_DIR irrelevant; "
-                "newest-by-ctime proved for arbitrary file lists. Model tied to the code by an EXHAUSTIVE run of all 216 configurations (x present/absent) "
-                "in fresh interpreters with urlopen/requests/socket interposed and file opens logged",
-        "design_ref": "DESIGN.md 5/C16",
-        "note": "trusted: Coq kernel, OS change-time ordering, existence of the packaged platforms.txt; exhaustive for the stated abstraction",
-        "technique": "finite-enum Gallina model + destruct/vm_compute; exhaustive subprocess correspondence",
+        "text": 'Coq theorems (no axioms) for every well-formed field record of the standard TLE column layout (a printer written from the format definition): the '
+                'model of Tle.__init__/_parse_tle decodes the printed lines to exactly the values the columns denote (strings and integers exactly, each float as exact'
+                ' sign/digits/implied point/signed exponent), the epoch is exactly 1 January of the %y-pivoted year plus (day-1) days in whole microseconds, '
+                'line1/line2 are the stripped inputs, printed sets pass the checksum, every decimal has mantissa < 2^53 and |power of ten| <= 22',
+        "design_ref": 'DESIGN.md 5/C02',
+        "note": 'trusted: Coq kernel; translator/gen_tle.py (fail-closed Python-AST to Gallina: Tle._parse_tle, _read_tle, its nested helper and the __init__ call '
+                'order are REGENERATED on every run and proved equal to the hand model on every pair of lines: C02_source_*); the hand models of '
+                'float()/int()/strptime/timedelta (tied to CPython by the Coq-evaluated correspondence on generated sets, premise wf/encode re-checked per input). '
+                'Validated, not proved: CPython float() correct rounding (bit-exact hex), eccentricity within 1 ulp, the timedelta float path reaching the exact '
+                'microsecond, file/StringIO readers. Years 57-68 follow %y and are not judged',
+        "technique": 'Coq proof of decode∘encode = values over an executable Gallina model and a literature printer; source-regenerated definitions proved equal to the '
+                'model; correspondence by vm_compute against the implementation (float.hex(), integer microseconds) plus an independent column-table oracle',
     },
     "C03": {
-        "category": "proof",
-        "text": "PARTIAL. Coq theorems over a hand-written executable model of get_next_passes' control logic (sign-bit crossings, rise/fall pairing with "
-                "persisting rise, rise<fall guard, argmax slice, culmination bracket), for every sample list and every root oracle meeting its contract: "
-                "rise<fall, time order and disjointness, sample-level soundness, discrete and continuous completeness with explicit flanking hypotheses, "
-                "bracket containment, unimodal maximiser inside the bracket. brentq accuracy (1e-4 deg), the culmination optimiser (0.01 deg) and behaviour "
-                "between samples are oracle hypotheses checked by sampling against a 1-2 s dense scan",
-        "design_ref": "DESIGN.md 5/C03",
-        "note": "trusted: Coq kernel, standard reals axioms in two theorems only, the order/sign-preserving IEEE-bits encoding used by the correspondence; "
-                "scipy brentq / minimize_scalar contracts as Section hypotheses",
-        "technique": "Coq proof over a hand-written Gallina model; correspondence by replaying the implementation's own samples and recorded roots via vm_compute; dense-scan oracle",
+        "text": "PARTIAL. Coq theorems over a hand-written executable model of get_next_passes' control logic (sign-bit crossings, rise/fall pairing with persisting "
+                'rise, rise<fall guard, argmax slice, culmination bracket), for every sample list and every root oracle meeting its contract: rise<fall, time order and'
+                ' disjointness, sample-level soundness, discrete and continuous completeness with explicit flanking hypotheses, bracket containment, unimodal maximiser'
+                ' inside the bracket. brentq accuracy (1e-4 deg), the culmination optimiser (0.01 deg) and behaviour between samples are oracle hypotheses checked by '
+                'sampling against a 1-2 s dense scan',
+        "design_ref": 'DESIGN.md 5/C03',
+        "note": 'trusted: Coq kernel, standard reals axioms in two theorems only, the order/sign-preserving IEEE-bits encoding used by the correspondence; scipy brentq'
+                ' / minimize_scalar contracts as Section hypotheses',
+        "technique": "Coq proof over a hand-written Gallina model; correspondence by replaying the implementation's own samples and recorded roots via vm_compute; dense-"
+                'scan oracle',
     },
-    "C11": {
-        "category": "proof",
-        "text": "PARTIAL. Coq theorems over a tick-level executable model of get_last_an_time: post-condition, termination for every unit under a Lipschitz "
-                "hypothesis, non-termination without the unit guard, refined result not late under explicit Newton-step hypotheses; truncation/TBUS/"
-                "monotonicity of the orbit number, strict monotonicity of the cubic over [-1, 5] d under stated TLE field bounds, cache purity, the "
-                "crossing-time bracket with IVT under scipy's contract. Agreement of the count with the trajectory's crossings, v_z > 0, 'no later node', "
-                "the Lipschitz bound on z, scipy bisect and binary64 rounding are sampled against a 1 s z scan",
-        "design_ref": "DESIGN.md 5/C11",
-        "note": "trusted: Coq kernel, stdlib real axioms; one known class (eccentric orbits, errors within the apsidal-rotation bound 5 s + 1.25 (e/n) dw^2, signature C11:count:eccentric-apsidal-rotation) is "
-                "suppressed by signature with an error cap",
-        "technique": "Coq proof over a hand-written Gallina model; bit-exact replay of recorded (tick, z, shift) samples for all 7 time representations via vm_compute; scan oracle",
+    "C04": {
+        "text": 'Coq theorems over the real-number model of Orbital.get_lonlatalt, geoloc.get_lonlatalt, astronomy.observer_position and utc2local regenerated from '
+                'source on every run (geodetic loop unrolled per exit path): longitude in (-180,180] and latitude in [-90,90] for all inputs; on EVERY exit path, from '
+                'the exit test alone, the WGS-84 + GMST reconstruction of (lon,lat,alt) equals (A/XKMPER) x position within A*2e-12 km per component (Lipschitz bounds '
+                "by MVT), with A/XKMPER-1 < 3.2e-7 inside the property's 2e-6; observer_position is exactly the WGS-84 geodetic->ECI map with velocity = earth-rotation"
+                ' x position; method and module function are the same real function; local time = UTC + lon/15 h; the loop TERMINATES: for every position at least '
+                '6378.135 km from the centre and off the polar axis the iteration is a contraction (factor < 0.0069) and the exit test succeeds at the fifth test at '
+                'the latest (Coquelicot MVT), so some exit is taken and its result satisfies the round trip',
+        "design_ref": 'DESIGN.md 5/C04',
+        "note": 'trusted: Coq kernel, stdlib real axioms (+ classic/funext via Coquelicot, Uint63/float primitives via Interval), translator (self-checked each run: '
+                'binary64 DAG evaluation and Coq-Interval point evaluation against the interpreter). Paths beyond 6 loop iterations are outside the model and proved '
+                'unreachable above one earth radius. Binary64 rounding, incl. near the polar axis, sampled not proved',
+        "technique": 'Coq proof over source-regenerated real-number model (symbolic tracing with path enumeration), Coquelicot MVT + Interval; oracle vs independent '
+                'WGS-84/IAU-82 code',
     },
-    "C01": {
-        "category": "proof",
-        "text": "Coq theorems tying the model of OrbitElements/_SGDP4Base/_Keplerians/kep2xyz/get_position regenerated from orbital.py on every run (decision "
-                "trees over every path + every named quantity + the finishing map as a function of E+omega, with generated composition lemmas checked by "
-                "conversion) to a hand transcription of Spacetrack Report #3: on the near-earth-normal path with e0 > 1e-4 every initialisation coefficient, "
-                "the secular/drag/long-period update, the short-period finishing map, the state vectors and the unit conversions equal the report's, and "
-                "every Newton exit satisfies Kepler's equation to 1e-12; the ISS set is proved to be on that path by interval arithmetic. PARTIAL: Newton "
-                "convergence within 10 iterations, the Lipschitz step from the 1e-12 residual to 1 mm, the e0 <= 1e-4 leaves (coefficient variant only) "
-                "and binary64 rounding are sampled: implementation vs an independent evaluation of the report (worst 0.011 mm) and the AIAA vectors",
-        "design_ref": "DESIGN.md 5/C01",
-        "note": "trusted: Coq kernel, stdlib real axioms (+ Uint63/float primitives via Interval in the example), translator (self-checked each run on "
-                "outcome class and state), Spec_SGP4.v transcription (cross-checked by the Gen=Spec proofs: a slip in D4 was caught that way). Known finding "
-                "C01:aiaa:29141 (decaying SL-14 DEB entry of the AIAA set, 0.35 m)",
-        "technique": "Coq proof over source-regenerated model (symbolic tracing with path enumeration, decision trees, generated conversion lemmas); field/ring; independent STR#3 oracle + AIAA vectors",
+    "C05": {
+        "text": 'Coq theorems over the regenerated real-number model of Orbital.get_observer_look and the module function: both are the core formula applied to the '
+                "observer-position and GMST kernels (by conversion); elevation = asin(up-component/range) in the observer's WGS-84 east-north-up frame, the clips being"
+                ' the identity over the reals (Cauchy-Schwarz); elevation in [-90,90] and the asin argument in [-1,1] for every input; azimuth is the clockwise-from-'
+                "north angle in [0,2pi) (module: any direction with a horizontal component; method: north component non-zero); a satellite on the observer's geodetic "
+                'normal is at elevation exactly 90',
+        "design_ref": 'DESIGN.md 5/C05',
+        "note": 'trusted: Coq kernel, stdlib real axioms, translator (self-checked each run). 1e-4 deg accuracy, finiteness in binary64 and the 5e-3 deg method/module '
+                'agreement are sampled against an independent ENU computation (incl. the exact sub-satellite point, poles, date line, antipode, geostationary '
+                "altitudes). The method's exact-zero north component (division by zero) is not constructed",
+        "technique": 'Coq proof over source-regenerated real-number model; atan2/asin library lemmas; oracle vs independent ENU code',
     },
-    "C13": {
-        "category": "proof",
-        "text": "Coq theorems over the constructor and propagation decision trees regenerated from orbital.py by exhaustive path enumeration: OrbitalError "
-                "exactly when the element-range guards fail, NotImplementedError exactly for in-range elements with period >= 225 min, simplified mode "
-                "exactly for perigee < 220 km and propagate refuses that mode, near-earth-normal otherwise; the outcome is a total function of the elements; "
-                "every returned state has passed the decay guards and each decayed condition ends in an exception; on a returned state every denominator "
-                "and sqrt argument of the propagation stage is positive (real-number half of 'never NaN'). PARTIAL: constructor denominators and binary64 "
-                "overflow are sampled over the printable range of every field, incl. the accepted high-eccentricity island",
-        "design_ref": "DESIGN.md 5/C13",
-        "note": "trusted: Coq kernel, stdlib real axioms, translator (self-checked each run on every outcome class); guard thresholds are tied to the report's "
-                "period/perigee by C13_period_is_model_period",
-        "technique": "Coq proof by case analysis over source-regenerated decision trees; oracle over the printable field ranges",
+    "C06": {
+        "text": 'Coq theorems over the model of sun_ecliptic_longitude, sun_ra_dec, cos_zen, sun_zenith_angle, get_alt_az and sun_earth_distance_correction regenerated'
+                " from astronomy.py on every run: for every instant 1950-2050 the code's ecliptic longitude, obliquity and distance factor are within 0.0275 deg, 0.002"
+                ' deg and 0.0015 AU of the Astronomical-Almanac low-precision formulas; (ra, dec) are exactly the spherical coordinates of the ecliptic point; the sun '
+                'direction is within a chord of 5.15e-4 (< 0.03 deg) of the Almanac direction; cos_zen is the sun-zenith dot product, lies in [-1,1] and is within '
+                "5.16e-4 of the Almanac/IAU-82 value; azimuth = atan2(east, north); zenith/altitude/arccos mutually consistent (the code's clip is the identity over "
+                'the reals); zenith 0 / 180 at the sub-solar point / antipode',
+        "design_ref": 'DESIGN.md 5/C06',
+        "note": 'trusted: Coq kernel, stdlib real axioms, FloatAxioms/Uint63 primitives used by Interval, translator (self-checked each run), independent numpy Almanac'
+                ' oracle with UT1=UTC. Binary64 rounding and the angle-form 0.03 deg for zenith/altitude/azimuth are sampled, not proved. One singular instant per year'
+                ' of the half-angle RA formula is excluded from the direction theorems and proved to exist (unreachable in binary64)',
+        "technique": 'Coq proof over source-regenerated real-number model; Interval (Taylor models + bisection) for series bounds; atan2/half-angle library; IVT for the '
+                'singular instant',
     },
-    "C18": {
-        "text": "Coq theorems (no axioms) over an atomic-step model of the orbit object's shared state: every history and every interleaving (unbounded "
-                "thread counts and lengths) returns fresh-object results, and nothing but the two lazy cache cells is ever stored to. The premises are "
-                "boolean checks (vm_compute) on facts REGENERATED from orbital.py on every run by a fail-closed AST dataflow pass: which pre-existing "
-                "attributes each query may store to, whether a stored value can depend on an argument, whether an argument is modified in place",
-        "design_ref": "DESIGN.md 5/C18",
-        "note": "the facts are cross-checked against a dynamic setattr log and the model's cell-access traces; bit-identity on the implementation is validated "
-                "(not proved) by sampled histories and a settrace-driven scheduler with exhaustive single preemption at source lines. Trusted: GIL atomicity, "
-                "numpy/scipy purity, soundness of the AST pass",
-        "technique": "generated facts as computed premises + interaction-tree model with invariant proof in Coq; deterministic thread scheduler as oracle",
-    },
-    "C19": {
-        "text": "Coq theorems over hand-written templates of the nine timed instrument definitions plus OLCI/SLSTR, for every scan count and every position "
-                "selection: shapes, per-scan equality, swath bounds, zero along-track angles, antisymmetry, strictly increasing integer-ns times, "
-                "line-before-next, scan period within 1 ns after truncation, subset = columns of the full geometry. A second, bit-exact binary64 "
-                "(PrimFloat) instance of the same formulas is proved within 1 ns of the exact one, period within 2 ns, monotone and line-ordered, for "
-                "scans 0..50 by kernel-checked sweep (bound in the statement)",
-        "design_ref": "DESIGN.md 5/C19",
-        "note": "template-equals-code is a Coq-evaluated correspondence run (angles 1e-12 rad, nanoseconds exactly), sampled not proved; binary64 results bounded "
-                "to 50 scans; default options only; the angle floats are not modelled. Trusted: Coq kernel with primitive floats/Int63 (listed under the three "
-                "B64 theorems), numpy's truncating float x timedelta64, doc-transcribed limits in the oracle",
-        "technique": "hand-written executable Gallina templates parameterised over an arithmetic (Q / PrimFloat); lra/lia over Q + forallb sweeps; correspondence via vm_compute",
+    "C07": {
+        "text": 'Coq theorems over the regenerated model of the compute_pixels core and ScanGeometry.vectors: the pixel lies exactly on WGS-84, on the ray at the '
+                'smaller of the only two roots and in front of the satellite; horizon inequality; an intersection exists iff discriminant >= 0; unit view vectors; zero'
+                ' angles give nadir; roll and pitch add; yaw leaves the off-nadir angle unchanged; closed-form across/along-track sense; exit of the NaN-tolerant '
+                "vectorised loop (pre-fix loop refuted). Sub-point conversion range/round trip come from C04's theorems",
+        "design_ref": 'DESIGN.md 5/C07',
+        "note": 'the NaN <-> miss link, nadir 0.2 deg, the 1e-9 / 10 m tolerances, 2-D shapes and get_lonlatalt termination are validated by the oracle (hit/miss '
+                'decided in exact rationals). Orbital.get_position is taken as the state source. M_VecLoop.v is hand-written from geoloc.py:54-59,197-202',
+        "technique": 'Coq proof over a source-regenerated model with recorded qrotate calls + hand-written loop-exit model + implementation oracle',
     },
     "C08": {
-        "text": "Coq theorems (no axioms) by complete case analysis over a hand-written (container, dtype) model of every numeric entry point: 14 input kinds x "
-                "10 time kinds return the documented kind and never raise; the tick->day and tick->minute conversions as coded give identical binary64 bits "
-                "for one instant in any datetime64 unit (executable rational model of IEEE rounding)",
-        "design_ref": "DESIGN.md 5/C08",
-        "note": "the model's numpy/dask oracle-fact table and every entry-point cell are compared EXHAUSTIVELY with the installed numpy/dask and the "
-                "implementation on each run (6322 cells); the binary64 time model is compared bit-exactly with numpy; array-vs-scalar agreement (1e-6) and "
-                "bit identity across time kinds are sampled with regression instants. Trusted: numpy promotion and division rules as tabulated",
-        "technique": "finite kind model + vm_compute case sweep; rational IEEE-rounding model with invariance proof; exhaustive table correspondence via coq_eval",
+        "text": 'Coq theorems (no axioms) by complete case analysis over a hand-written (container, dtype) model of every numeric entry point: 14 input kinds x 10 time'
+                ' kinds return the documented kind and never raise; the tick->day and tick->minute conversions as coded give identical binary64 bits for one instant in'
+                ' any datetime64 unit (executable rational model of IEEE rounding)',
+        "design_ref": 'DESIGN.md 5/C08',
+        "note": "the model's numpy/dask oracle-fact table and every entry-point cell are compared EXHAUSTIVELY with the installed numpy/dask and the implementation on "
+                'each run (6322 cells); the binary64 time model is compared bit-exactly with numpy; array-vs-scalar agreement (1e-6) and bit identity across time kinds'
+                ' are sampled with regression instants. Trusted: numpy promotion and division rules as tabulated',
+        "technique": 'finite kind model + vm_compute case sweep; rational IEEE-rounding model with invariance proof; exhaustive table correspondence via coq_eval',
+    },
+    "C09": {
+        "text": 'Coq theorems (no axioms) over a hand-written executable model of Tle._checksum and the constructor order, for lines of ANY length: accepted iff the '
+                "last character is the digit of (digit sum + number of '-') mod 10 of the rest; any single digit replaced by a different digit (check digit included) "
+                'is rejected; any replacement changing the weight mod 10 is rejected; both lines must pass; parsing is reached only through an accepted checksum. '
+                'Tle._checksum and the constructor order are additionally REGENERATED from tlefile.py on every run (translator/gen_tle.py, fail-closed) and proved '
+                'equal to the model for all inputs (C09_source_*). The model is also tied to tlefile.py by an exhaustive sweep per TLE of all 2x69 positions x 95 '
+                'printable replacements, evaluated inside Coq (vm_compute) and on the implementation (lines, files, streams)',
+        "design_ref": 'DESIGN.md 5/C09',
+        "note": 'trusted: Coq kernel; translator/gen_tle.py; the hand models of str.isdigit / int on one character (correspondence-checked every run); domain 7-bit '
+                'ASCII (Python isdigit/int on non-ASCII digits not modelled)',
+        "technique": 'Coq proof by induction over an executable Gallina model; exhaustive per-TLE correspondence via vm_compute',
+    },
+    "C10": {
+        "text": 'Coq theorems (no axioms) over a hand-written executable model of the line scanner (explicit cursor, StopIteration, prefix designator, SATELLITES as '
+                'finite map), the bulk readers and read_platform_numbers: for well-formed collections of any length the result is the first entry matching by name line'
+                ' or registered 5-character id (empty name on a stream -> first entry), else KeyError; both lines come from one entry (adjacent source lines even '
+                'without well-formedness); bulk reads return every entry in order; the platforms mapping is leading words -> last token with the last row winning. '
+                'Necessity of each hypothesis proved by _refuted witnesses',
+        "design_ref": 'DESIGN.md 5/C10',
+        "note": 'trusted: Coq kernel, Python line iteration and XML parsing, ASCII domain; model-code tie by generated correspondence (about 1.8k quick, 12k thorough '
+                'cases, model evaluated in Coq), sats_ok (5-character ids) discharged by computation for the active platforms file',
+        "technique": 'hand-written Gallina model + structural induction; vm_compute correspondence + independent oracle',
+    },
+    "C11": {
+        "text": 'PARTIAL. Coq theorems over a tick-level executable model of get_last_an_time: post-condition, termination for every unit under a Lipschitz hypothesis,'
+                ' non-termination without the unit guard, refined result not late under explicit Newton-step hypotheses; truncation/TBUS/monotonicity of the orbit '
+                "number, strict monotonicity of the cubic over [-1, 5] d under stated TLE field bounds, cache purity, the crossing-time bracket with IVT under scipy's "
+                "contract. Agreement of the count with the trajectory's crossings, v_z > 0, 'no later node', the Lipschitz bound on z, scipy bisect and binary64 "
+                'rounding are sampled against a 1 s z scan',
+        "design_ref": 'DESIGN.md 5/C11',
+        "note": 'trusted: Coq kernel, stdlib real axioms; one known class (eccentric orbits, errors within the apsidal-rotation bound 5 s + 1.25 (e/n) dw^2, signature '
+                'C11:count:eccentric-apsidal-rotation) is suppressed by signature with an error cap',
+        "technique": 'Coq proof over a hand-written Gallina model; bit-exact replay of recorded (tick, z, shift) samples for all 7 time representations via vm_compute; scan'
+                ' oracle',
+    },
+    "C12": {
+        "text": 'Coq theorems over the model of jdays/jdays2000/gmst regenerated from astronomy.py on every run: calendar agreement with Fliegel-Van Flandern for every'
+                ' date 1900-2100 (finite sweep lifted), exact Julian date, J2000 offset, differences, GMST range, IAU-1982 within 1e-7 rad and sidereal rate within '
+                '1e-9 rad/day for |T|<=1; plus correspondence of the generated model and of the calendar model against the interpreter',
+        "design_ref": 'DESIGN.md 5/C12',
+        "note": "trusted: Coq kernel, stdlib real axioms + Uint63 primitives (Interval), translator (self-checked each run), numpy's civil-date-to-tick mapping "
+                '(validated by Coq-evaluated correspondence); binary64 rounding sampled, not proved',
+        "technique": 'Coq proof over source-regenerated real-number model + Interval; correspondence via vm_compute',
+    },
+    "C13": {
+        "text": 'Coq theorems over the constructor and propagation decision trees regenerated from orbital.py by exhaustive path enumeration: OrbitalError exactly when'
+                ' the element-range guards fail, NotImplementedError exactly for in-range elements with period >= 225 min, simplified mode exactly for perigee < 220 km'
+                ' and propagate refuses that mode, near-earth-normal otherwise; the outcome is a total function of the elements; every returned state has passed the '
+                'decay guards and each decayed condition ends in an exception; on a returned state every denominator and sqrt argument of the propagation stage is '
+                "positive (real-number half of 'never NaN'). PARTIAL: constructor denominators and binary64 overflow are sampled over the printable range of every "
+                'field, incl. the accepted high-eccentricity island',
+        "design_ref": 'DESIGN.md 5/C13',
+        "note": "trusted: Coq kernel, stdlib real axioms, translator (self-checked each run on every outcome class); guard thresholds are tied to the report's "
+                'period/perigee by C13_period_is_model_period',
+        "technique": 'Coq proof by case analysis over source-regenerated decision trees; oracle over the printable field ranges',
+    },
+    "C14": {
+        "text": 'Coq theorems over the model of qrotate (all accepted axis/angle/shape variants, proved column-wise identical) and subpoint, regenerated from geoloc.py'
+                " on every run: equality with Rodrigues' rotation about axis/|axis| by minus the angle for every vector, non-zero axis and angle; length and inner-"
+                'product preservation; axis fixed; identity at 0 and 2pi; additivity; the subpoint lies on the (A, B) ellipsoid for every latitude value. Translator '
+                'self-check and implementation oracle against an independent Rodrigues formula',
+        "design_ref": 'DESIGN.md 5/C14',
+        "note": 'trusted: Coq kernel, stdlib real axioms, translator (self-checked each run in binary64 and by Coq-Interval). Shape/broadcast semantics, the 1 m normal'
+                ' distance, geodetic_lat termination and binary64 rounding at 1e-9 are sampled',
+        "technique": 'Coq proof (nsatz / field) over a source-regenerated real-number model + sampling oracle',
+    },
+    "C15": {
+        "text": 'Coq theorems (no axioms) over a hand-written executable model of SQLiteTLE for histories of any length with crashes at every statement boundary: row '
+                'set = first-seen (text, source) per distinct (configured satellite, epoch), nothing for unconfigured satellites; flag iff a row was added since open; '
+                'a crash is indistinguishable from a reopen for every later observation; export = temporally newest first-seen entry per platform with data, in '
+                'configuration order, nothing unless added or write_always; bytewise order of the stored ISO strings = temporal order incl. prefix-related whole-second'
+                ' strings. Correspondence of model and implementation after every operation on random, corpus and bounded-exhaustive histories plus fetch_tles.run',
+        "design_ref": 'DESIGN.md 5/C15',
+        "note": 'trusted: Coq kernel, sqlite semantics (unique-key insert, transaction atomicity, BINARY text order), crash = exception at a statement boundary through'
+                ' a proxy on db.db, epoch taken from the parsed Tle, insertion_time not modelled; platform_names may permanently lack a row after a crash (proved; not '
+                'required by the property)',
+        "technique": 'refinement proof in Coq to a history-level abstract spec + Coq-evaluated (vm_compute) history correspondence with crash injection',
+    },
+    "C16": {
+        "text": 'Coq theorems (no axioms) by complete case analysis over a hand-written decision model of _read_tle / _get_uris_and_open_func / _get_config_path / '
+                'get_platforms_filepath: precedence lines > file/stream > newest TLES file > network; no network request whenever a local source is configured even if '
+                'it yields nothing; registry from PYORBITAL_CONFIG_PATH iff it holds platforms.txt; PPP_CONFIG_DIR irrelevant; newest-by-ctime proved for arbitrary '
+                'file lists. Model tied to the code by an EXHAUSTIVE run of all 216 configurations (x present/absent) in fresh interpreters with '
+                'urlopen/requests/socket interposed and file opens logged',
+        "design_ref": 'DESIGN.md 5/C16',
+        "note": 'trusted: Coq kernel, OS change-time ordering, existence of the packaged platforms.txt; exhaustive for the stated abstraction',
+        "technique": 'finite-enum Gallina model + destruct/vm_compute; exhaustive subprocess correspondence',
+    },
+    "C17": {
+        "text": 'Coq theorems (no axioms) over a hand-written model of fetch_plain_tle / fetch_spacetrack and of the line scanner, for unbounded source and URI lists: '
+                'any result is the per-source in-order concatenation with every configured source present; a non-200 URI is equivalent to its deletion; a result '
+                "implies no timeout and a reached timeout is TleDownloadTimeoutError; text without a line starting '1 ' yields no entries; the Space-Track case table. "
+                'Every outcome assignment over <= 5 URIs in <= 3 sources is run on the implementation under an interposed requests layer and on the model inside Coq',
+        "design_ref": 'DESIGN.md 5/C17',
+        "note": 'trusted: Coq kernel, interposed requests (status_code/text, Timeout subclasses), TLE lines abstracted to 5 classes; known finding C17:body-line-'
+                'starting-with-1-not-tle is modelled faithfully and proved as C17_line1_refuted',
+        "technique": 'Coq proof by induction over the fetch loops + exhaustive Coq-evaluated correspondence',
+    },
+    "C18": {
+        "text": "Coq theorems (no axioms) over an atomic-step model of the orbit object's shared state: every history and every interleaving (unbounded thread counts "
+                'and lengths) returns fresh-object results, and nothing but the two lazy cache cells is ever stored to. The premises are boolean checks (vm_compute) on'
+                ' facts REGENERATED from orbital.py on every run by a fail-closed AST dataflow pass: which pre-existing attributes each query may store to, whether a '
+                'stored value can depend on an argument, whether an argument is modified in place',
+        "design_ref": 'DESIGN.md 5/C18',
+        "note": "the facts are cross-checked against a dynamic setattr log and the model's cell-access traces; bit-identity on the implementation is validated (not "
+                'proved) by sampled histories and a settrace-driven scheduler with exhaustive single preemption at source lines. Trusted: GIL atomicity, numpy/scipy '
+                'purity, soundness of the AST pass',
+        "technique": 'generated facts as computed premises + interaction-tree model with invariant proof in Coq; deterministic thread scheduler as oracle',
+    },
+    "C19": {
+        "text": 'Coq theorems over hand-written templates of the nine timed instrument definitions plus OLCI/SLSTR, for every scan count and every position selection: '
+                'shapes, per-scan equality, swath bounds, zero along-track angles, antisymmetry, strictly increasing integer-ns times, line-before-next, scan period '
+                'within 1 ns after truncation, subset = columns of the full geometry. A second, bit-exact binary64 (PrimFloat) instance of the same formulas is proved '
+                'within 1 ns of the exact one, period within 2 ns, monotone and line-ordered, for scans 0..50 by kernel-checked sweep (bound in the statement)',
+        "design_ref": 'DESIGN.md 5/C19',
+        "note": 'template-equals-code is a Coq-evaluated correspondence run (angles 1e-12 rad, nanoseconds exactly), sampled not proved; binary64 results bounded to 50'
+                ' scans; default options only; the angle floats are not modelled. Trusted: Coq kernel with primitive floats/Int63 (listed under the three B64 '
+                "theorems), numpy's truncating float x timedelta64, doc-transcribed limits in the oracle",
+        "technique": 'hand-written executable Gallina templates parameterised over an arithmetic (Q / PrimFloat); lra/lia over Q + forallb sweeps; correspondence via '
+                'vm_compute',
+    },
+    "C20": {
+        "text": 'PARTIAL. Coq theorems over the regenerated model of kep2xyz/get_position: |position| = radius, <position,velocity> = radius*rdot, |velocity|^2 = '
+                "rdot^2 + rfdot^2, r x v = radius*rfdot*(sin i sin O, -sin i cos O, cos i) (orbital plane has the model's inclination and node), unit conversion of the"
+                ' normalised output; and over the regenerated SGP4 model: (cos u, sin u) is a unit vector, and on every answered propagation of both reachable leaves '
+                "the plane's inclination is within (3/4) k2/pL^2 of the element set's (hence within 0.05 deg for pL >= 0.69 earth radii) and the node within (3/2) "
+                'k2/pL^2 of the secular node. The other clauses (velocity = d position/dt within 0.15 %, perigee/apogee band, energy within 1 %, orbit summary) are '
+                'facts about the SGP4 theory and are checked by sampling',
+        "design_ref": 'DESIGN.md 5/C20',
+        "note": 'trusted: Coq kernel, stdlib real axioms, translator (self-checked each run). Sampled clauses are not proved; say so in evidence.assumptions',
+        "technique": 'Coq proof (ring with trigonometric identities) over source-regenerated model; finite-difference and node-scan oracle on the implementation',
     },
 }
 
